@@ -1,5 +1,3 @@
-pub assume_specification<T: Clone> [<[T]>::to_vec] (s: &[T]) -> (r: Vec<T>)
-    ensures r@ == s@;
 pub assume_specification<'a, T: Copy> [std::option::Option::<&T>::copied] (o: std::option::Option<&'a T>) -> (r: std::option::Option<T>)
     ensures r == (match o { Some(x) => Some(*x), None => None });
 
